@@ -40,11 +40,13 @@ pub struct ECfg {
     pub max_states: usize,
     pub tag_chunk: &'static str,
     pub tag_single: &'static str,
+    /// mixed-method run: every call may use the with- or the without-replacement method
+    pub mixed: bool,
 }
 
 impl ECfg {
     pub fn label(&self) -> String {
-        format!("{}/{:?}/{:?}/{}", self.enc.name, self.source, self.sink, if self.repl { "repl" } else { "norepl" })
+        format!("{}/{:?}/{:?}/{}", self.enc.name, self.source, self.sink, if self.mixed { "mixed" } else if self.repl { "repl" } else { "norepl" })
     }
     pub fn to_json(&self) -> J {
         J::obj()
@@ -55,7 +57,10 @@ impl ECfg {
             .set("repl", J::Bool(self.repl))
     }
     pub fn min_cap(&self) -> usize {
-        if self.repl {
+        Self::min_cap_of(self.repl)
+    }
+    pub fn min_cap_of(repl: bool) -> usize {
+        if repl {
             14
         } else {
             4
@@ -102,9 +107,18 @@ pub struct ECallRec {
     pub dalign: u8,
     /// true: a new chunk from the caller; false: the re-pushed remainder of the previous call
     pub fresh: bool,
+    /// 0 = without replacement, 1 = with replacement, 2 = the run's own mode
+    pub method: u8,
 }
 
 impl ECallRec {
+    pub fn repl(&self, default: bool) -> bool {
+        match self.method {
+            0 => false,
+            1 => true,
+            _ => default,
+        }
+    }
     pub fn to_json(&self) -> J {
         J::obj()
             .set("units", J::s(&self.units.iter().map(|u| format!("{:X}", u)).collect::<Vec<_>>().join(" ")))
@@ -113,6 +127,7 @@ impl ECallRec {
             .set("fill", J::i(self.fill as usize))
             .set("dalign", J::i(self.dalign as usize))
             .set("fresh", J::Bool(self.fresh))
+            .set("method", J::i(self.method as usize))
     }
     pub fn from_json(j: &J) -> ECallRec {
         ECallRec {
@@ -122,6 +137,7 @@ impl ECallRec {
             fill: j.get("fill").unwrap().as_i64().unwrap() as u8,
             dalign: j.get("dalign").unwrap().as_i64().unwrap() as u8,
             fresh: j.get("fresh").and_then(|x| x.as_bool()).unwrap_or(true),
+            method: j.get("method").and_then(|x| x.as_i64()).unwrap_or(2) as u8,
         }
     }
 }
@@ -316,8 +332,8 @@ impl<'a> Explorer<'a> {
         units.iter().map(|&c| unit_len(c, self.cfg.source)).sum()
     }
 
-    fn query(&self, enc: &Encoder, n: usize) -> Option<usize> {
-        match (self.cfg.source, self.cfg.repl) {
+    fn query(&self, enc: &Encoder, n: usize, repl: bool) -> Option<usize> {
+        match (self.cfg.source, repl) {
             (Source::Utf8, false) => enc.max_buffer_length_from_utf8_without_replacement(n),
             (Source::Utf8, true) => enc.max_buffer_length_from_utf8_if_no_unmappables(n),
             (Source::Utf16, false) => enc.max_buffer_length_from_utf16_without_replacement(n),
@@ -326,7 +342,7 @@ impl<'a> Explorer<'a> {
     }
 
     /// reference output for `units` from this node: (bytes incl. owed ones, has unmappable)
-    fn ref_units(&self, key: &EKey, units: &[u32], last: bool) -> (usize, bool) {
+    fn ref_units(&self, key: &EKey, units: &[u32], last: bool, repl: bool) -> (usize, bool) {
         let mut rf = key.rf.clone();
         let mut out = vec![];
         for (c, _) in scalars_of_units(units) {
@@ -342,7 +358,7 @@ impl<'a> Explorer<'a> {
                 ETok::Byte(_) => w += 1,
                 ETok::Unmappable(c) => {
                     unm = true;
-                    if self.cfg.repl {
+                    if repl {
                         w += ncr(*c).len();
                     }
                 }
@@ -351,9 +367,9 @@ impl<'a> Explorer<'a> {
         (w, unm)
     }
 
-    fn caps(&self, key: &EKey, units: &[u32], last: bool) -> Vec<usize> {
-        let min = self.cfg.min_cap();
-        let (w, _) = self.ref_units(key, units, last);
+    fn caps(&self, key: &EKey, units: &[u32], last: bool, repl: bool) -> Vec<usize> {
+        let min = ECfg::min_cap_of(repl);
+        let (w, _) = self.ref_units(key, units, last, repl);
         let mut v: Vec<usize> = vec![];
         for c in min..min + 4 {
             v.push(c);
@@ -361,7 +377,7 @@ impl<'a> Explorer<'a> {
         for c in w.saturating_sub(2)..=w + 4 {
             v.push(c);
         }
-        if self.cfg.repl {
+        if repl {
             // around the NCR_EXTRA reservation
             for c in (w + 8)..=(w + 12) {
                 v.push(c);
@@ -374,7 +390,7 @@ impl<'a> Explorer<'a> {
             v.extend_from_slice(&[31, 32, 33]);
         }
         v.push(w + 64);
-        if let Some(q) = self.query(&key.enc, self.src_len(units)) {
+        if let Some(q) = self.query(&key.enc, self.src_len(units), repl) {
             if q < 1 << 20 {
                 v.push(q);
             }
@@ -423,9 +439,9 @@ impl<'a> Explorer<'a> {
         }
     }
 
-    fn do_call(&self, enc: &mut Encoder, units: &[u32], last: bool, cap: usize, fill: u8, dalign: u8) -> Result<EncObs, String> {
+    fn do_call(&self, enc: &mut Encoder, units: &[u32], last: bool, cap: usize, fill: u8, dalign: u8, repl: bool) -> Result<EncObs, String> {
         let d = Dst { cap, fill, align: dalign as usize, prior: None };
-        call_units(enc, self.cfg.source, self.cfg.sink, self.cfg.repl, units, last, &d)
+        call_units(enc, self.cfg.source, self.cfg.sink, repl, units, last, &d)
     }
 
     fn classify(&self, l: &mut Local, what: &str, parent: u32, call: &ECallRec) {
@@ -450,7 +466,9 @@ impl<'a> Explorer<'a> {
         let scalars: Vec<u32> = text_units.clone();
         let single = encode_single(cfg, &scalars);
         let reft = ref_encode_all(&cfg.enc, &scalars, true);
-        let reft = if cfg.repl { fold_ncr(&reft) } else { reft };
+        let reft = if cfg.repl || cfg.mixed { fold_ncr(&reft) } else { reft };
+        let chunked = if cfg.mixed { fold_ncr(&chunked) } else { chunked };
+        let single = if cfg.mixed { single.map(|s| fold_ncr(&s)) } else { single };
         let mut charged = false;
         match single {
             Ok(s) => {
@@ -459,7 +477,7 @@ impl<'a> Explorer<'a> {
                     let msg = format!("one call on text [{}] yields [{}], the Standard's encoder yields [{}]", units_short(&scalars), etoks_short(&s), etoks_short(&reft));
                     if l.vios.wants(cfg.tag_single, "single-vs-reference") {
                         let mut j = cfg.to_json();
-                        j.put("calls", J::Arr(vec![ECallRec { units: scalars.clone(), cap: scalars.len() * 12 + 64, last: true, fill: 0, dalign: 0, fresh: true }.to_json()]));
+                        j.put("calls", J::Arr(vec![ECallRec { units: scalars.clone(), cap: scalars.len() * 12 + 64, last: true, fill: 0, dalign: 0, fresh: true, method: 2 }.to_json()]));
                         j.put("detail", J::obj().set("message", J::s(&msg)));
                         l.vios.add(Violation { prop: cfg.tag_single.to_string(), kind: "single-vs-reference".into(), msg, replay: j });
                     } else {
@@ -483,14 +501,14 @@ impl<'a> Explorer<'a> {
     }
 
     #[allow(clippy::too_many_arguments)]
-    fn transition(&self, l: &mut Local, id: u32, key: &EKey, units: &[u32], last: bool, fresh: bool, cap: usize, dalign: u8) {
+    fn transition(&self, l: &mut Local, id: u32, key: &EKey, units: &[u32], last: bool, fresh: bool, cap: usize, dalign: u8, repl: bool) {
         let cfg = self.cfg;
         let or = &cfg.or;
-        let min = cfg.min_cap();
-        let call = ECallRec { units: units.to_vec(), cap, last, fill: 0xA5, dalign, fresh };
+        let min = ECfg::min_cap_of(repl);
+        let call = ECallRec { units: units.to_vec(), cap, last, fill: 0xA5, dalign, fresh, method: if cfg.mixed { repl as u8 } else { 2 } };
         l.stats.transitions += 1;
         let mut enc = key.enc.clone();
-        let r = self.do_call(&mut enc, units, last, cap, 0xA5, dalign);
+        let r = self.do_call(&mut enc, units, last, cap, 0xA5, dalign, repl);
         l.cur_obs = r.as_ref().ok().map(eobs_canon).or(Some("panic".into()));
         let o = match r {
             Ok(o) => o,
@@ -588,7 +606,7 @@ impl<'a> Explorer<'a> {
         if or.prefill3 {
             for f in [0x00u8, 0xFF] {
                 let mut e2 = key.enc.clone();
-                let r2 = self.do_call(&mut e2, units, last, cap, f, dalign);
+                let r2 = self.do_call(&mut e2, units, last, cap, f, dalign, repl);
                 let same = match &r2 {
                     Ok(o2) => o2.res == o.res && o2.read == o.read && o2.written == o.written && o2.out == o.out && o2.had_unmappables == o.had_unmappables && e2 == enc,
                     Err(_) => false,
@@ -606,9 +624,9 @@ impl<'a> Explorer<'a> {
         }
         // ---- C07
         if or.query {
-            if let Some(q) = self.query(&key.enc, srclen) {
-                let (_, unm) = self.ref_units(key, units, last);
-                if cap >= q && o.res == ERes::OutputFull && !(cfg.repl && unm) {
+            if let Some(q) = self.query(&key.enc, srclen, repl) {
+                let (_, unm) = self.ref_units(key, units, last, repl);
+                if cap >= q && o.res == ERes::OutputFull && !(repl && unm) {
                     self.vio(l, "C07", "outputfull-despite-queried-capacity", format!("query for {} input units returned {}, capacity {} offered, result OutputFull (read {}, written {})", srclen, q, cap, o.read, o.written), id, &call);
                 }
             }
@@ -634,7 +652,7 @@ impl<'a> Explorer<'a> {
                 match t {
                     ETok::Byte(b) => ds.push((EDTok::Byte(*b), false)),
                     ETok::Unmappable(u) => {
-                        if cfg.repl {
+                        if repl {
                             for b in ncr(*u) {
                                 ds.push((EDTok::Byte(b), true));
                             }
@@ -696,7 +714,7 @@ impl<'a> Explorer<'a> {
             tainted = true;
         }
         // ---- C09 flag
-        if or.flags && cfg.repl && own_all_classified && !tainted {
+        if or.flags && repl && !cfg.mixed && own_all_classified && !tainted {
             if o.had_unmappables != Some(own_subst) {
                 self.vio(l, if or.flags_prop.is_empty() { "C09" } else { or.flags_prop }, "had-unmappables-flag", format!("had_unmappables = {:?} but this call {} a numeric character reference", o.had_unmappables, if own_subst { "wrote" } else { "did not write" }), id, &call);
             }
@@ -788,7 +806,7 @@ impl<'a> Explorer<'a> {
             }
         }
         // ---- C09 twin
-        if or.twin && cfg.repl && fin {
+        if or.twin && repl && !cfg.mixed && fin {
             self.twin(l, id, &call);
         }
         let rem: Vec<u32> = if o.res == ERes::InputEmpty { vec![] } else { units[consumed_units..].to_vec() };
@@ -914,7 +932,7 @@ impl<'a> Explorer<'a> {
                         _ => true,
                     };
                     if !ok {
-                        let call = ECallRec { units: vec![], cap: 0, last: false, fill: 0, dalign: 0, fresh: true };
+                        let call = ECallRec { units: vec![], cap: 0, last: false, fill: 0, dalign: 0, fresh: true, method: 2 };
                         self.vio(l, "C07", "query-overflow", format!("{}({}) = {:?} after a smaller argument gave {:?}: not monotone / wrapped", name, n, v, prev.unwrap()), id, &call);
                         break;
                     }
@@ -940,16 +958,22 @@ impl<'a> Explorer<'a> {
                 return l;
             }
             let src = key.rem.clone();
-            for cap in self.caps(&key, &src, key.last) {
-                self.transition(&mut l, id, &key, &src, key.last, false, cap, 0);
+            let methods: &[bool] = if self.cfg.mixed { &[false, true] } else { std::slice::from_ref(&self.cfg.repl) };
+            for &repl in methods {
+                for cap in self.caps(&key, &src, key.last, repl) {
+                    self.transition(&mut l, id, &key, &src, key.last, false, cap, 0, repl);
+                }
             }
         } else {
             for ch in self.chunks.iter().skip(lo).take(hi - lo) {
+                let methods: &[bool] = if self.cfg.mixed { &[false, true] } else { std::slice::from_ref(&self.cfg.repl) };
                 for last in [false, true] {
-                    for cap in self.caps(&key, ch, last) {
-                        let al: &[u8] = if ch.len() >= 16 { aligns } else { &[0] };
-                        for &da in al {
-                            self.transition(&mut l, id, &key, ch, last, true, cap, da);
+                    for &repl in methods {
+                        for cap in self.caps(&key, ch, last, repl) {
+                            let al: &[u8] = if ch.len() >= 16 { aligns } else { &[0] };
+                            for &da in al {
+                                self.transition(&mut l, id, &key, ch, last, true, cap, da, repl);
+                            }
                         }
                     }
                 }
@@ -966,7 +990,7 @@ impl<'a> Explorer<'a> {
         let out_enc = crate::spec::enc(cfg.enc.output_name());
         let back = if cfg.or.decode_back { Some(out_enc.imp.new_decoder_without_bom_handling()) } else { None };
         let root = Arc::new(EKey { enc: cfg.enc.imp.new_encoder(), rf: cfg.enc.ref_encoder(), di: vec![], ds: vec![], rem: vec![], last: false, fin: false, back, back_got: vec![], back_want: vec![], tainted: false });
-        let dummy = ECallRec { units: vec![], cap: 0, last: false, fill: 0, dalign: 0, fresh: true };
+        let dummy = ECallRec { units: vec![], cap: 0, last: false, fill: 0, dalign: 0, fresh: true, method: 2 };
         self.nodes.push(NodeMeta { parent: 0, call: dummy.clone(), fresh: true });
         self.keys.push(root.clone());
         self.nodes.push(NodeMeta { parent: 0, call: dummy, fresh: true });
@@ -1166,7 +1190,7 @@ pub fn run_calls(cfg: &ECfg, calls: &[ECallRec]) -> Result<ERun, String> {
     let mut run = ERun { obs: vec![], toks: vec![], panic: None };
     for (i, c) in calls.iter().enumerate() {
         let d = Dst { cap: c.cap, fill: c.fill, align: c.dalign as usize, prior: None };
-        match call_units(&mut enc, cfg.source, cfg.sink, cfg.repl, &c.units, c.last, &d) {
+        match call_units(&mut enc, cfg.source, cfg.sink, c.repl(cfg.repl), &c.units, c.last, &d) {
             Ok(o) => {
                 for &b in &o.out {
                     run.toks.push(ETok::Byte(b));
@@ -1195,9 +1219,9 @@ pub fn close_history(cfg: &ECfg, calls: &[ECallRec]) -> Result<(Vec<ETok>, Vec<u
     let mut last = false;
     let mut done_chunk = true;
     let mut finished = false;
-    let mut one = |enc: &mut Encoder, toks: &mut Vec<ETok>, units: &[u32], cap: usize, lastf: bool, fill: u8| -> Result<(ERes, usize), String> {
+    let mut one = |enc: &mut Encoder, toks: &mut Vec<ETok>, units: &[u32], cap: usize, lastf: bool, fill: u8, repl: bool| -> Result<(ERes, usize), String> {
         let d = Dst { cap, fill, align: 0, prior: None };
-        let o = call_units(enc, cfg.source, cfg.sink, cfg.repl, units, lastf, &d)?;
+        let o = call_units(enc, cfg.source, cfg.sink, repl, units, lastf, &d)?;
         for &b in &o.out {
             toks.push(ETok::Byte(b));
         }
@@ -1223,7 +1247,7 @@ pub fn close_history(cfg: &ECfg, calls: &[ECallRec]) -> Result<(Vec<ETok>, Vec<u
                 text.push(s);
             }
         }
-        let (res, nu) = one(&mut enc, &mut toks, &c.units, c.cap, c.last, c.fill)?;
+        let (res, nu) = one(&mut enc, &mut toks, &c.units, c.cap, c.last, c.fill, c.repl(cfg.repl))?;
         rem = c.units[nu.min(c.units.len())..].to_vec();
         last = c.last;
         done_chunk = res == ERes::InputEmpty;
@@ -1242,7 +1266,7 @@ pub fn close_history(cfg: &ECfg, calls: &[ECallRec]) -> Result<(Vec<ETok>, Vec<u
             last = true;
         }
         let cap = rem.len() * 12 + 64;
-        let (res, nu) = one(&mut enc, &mut toks, &rem.clone(), cap, last, 0)?;
+        let (res, nu) = one(&mut enc, &mut toks, &rem.clone(), cap, last, 0, cfg.repl)?;
         rem = rem[nu.min(rem.len())..].to_vec();
         done_chunk = res == ERes::InputEmpty;
         if done_chunk && last {
@@ -1258,7 +1282,7 @@ pub fn encode_single(cfg: &ECfg, scalars: &[u32]) -> Result<Vec<ETok>, String> {
     let mut c2 = cfg.clone();
     c2.sink = ESink::Slice;
     // close_history with an initial call holding the whole text
-    let first = ECallRec { units: scalars.to_vec(), cap: scalars.len() * 12 + 64, last: true, fill: 0, dalign: 0, fresh: true };
+    let first = ECallRec { units: scalars.to_vec(), cap: scalars.len() * 12 + 64, last: true, fill: 0, dalign: 0, fresh: true, method: 2 };
     let mut all = calls;
     all.push(first);
     close_history(&c2, &all).map(|x| x.0)
@@ -1274,7 +1298,7 @@ pub fn replay(j: &J) -> Result<J, String> {
     let sink = if j.get("sink").and_then(|x| x.as_str()).ok_or("sink")? == "slice" { ESink::Slice } else { ESink::Vec };
     let repl = j.get("repl").and_then(|x| x.as_bool()).ok_or("repl")?;
     let calls: Vec<ECallRec> = j.get("calls").and_then(|x| x.as_arr()).ok_or("calls")?.iter().map(ECallRec::from_json).collect();
-    let cfg = ECfg { enc, source, sink, repl, syms: vec![], k: 0, or: EOracles::default(), threads: 1, max_states: 0, tag_chunk: "C04", tag_single: "C03" };
+    let cfg = ECfg { enc, source, sink, repl, syms: vec![], k: 0, or: EOracles::default(), threads: 1, max_states: 0, tag_chunk: "C04", tag_single: "C03", mixed: false };
     let render = |run: &ERun| -> J {
         let canon: Vec<J> = run.obs.iter().map(|o| J::s(&eobs_canon(o))).collect();
         let mut r = J::obj().set("canon", J::Arr(canon)).set("tokens", J::s(&etoks_short(&run.toks)));
